@@ -102,11 +102,12 @@ def activity (kind : String) (b1 b2 : Rat) (evs : List (Rat × Rat)) (k : Kind) 
     let spec := (finishSpec t1 amount r1 (fut t1)).map (fun d => ("ok", d))
     (code, spec, "comm-rate-capped-by-initial-bandwidth")
   else
-    -- llat: latency in force at the start; later changes do not move the end of the latency phase
+    -- llat: latency in force at the start; later changes do not move the end of the latency phase, and since the fix
+    -- "a bandwidth or latency change must not enable the flows that are still paying their latency" a change inside the
+    -- latency phase does not stall the comm any more (witness kept in corpus.txt): the code does what the spec says
     let t1 := tstart + cur
     let fin := t1 + amount / b1
-    let inside := (fut tstart).any (fun e => e.1 ≤ t1)
-    (if inside then none else some ("ok", fin), some ("ok", fin), "latency-change-during-latency-phase-stalls-comm")
+    (some ("ok", fin), some ("ok", fin), "")
 
 def judge (q a : List String) : Verdict :=
   match splitBar q with
